@@ -67,16 +67,8 @@ def _qvality_summary(al, t, args, kwargs):
 
 
 def _registry(prog, modname, regname):
-    mod = prog.module(modname)
-    node = mod.assigns.get(regname)
-    if not isinstance(node, ast.Dict):
-        raise AnalysisError(f"{modname}.{regname} is not a dict display")
-    out = {}
-    for k, v in zip(node.keys, node.values):
-        if not (isinstance(k, ast.Constant) and isinstance(v, ast.Lambda)):
-            raise AnalysisError(f"{regname}: entry is not 'name': lambda")
-        out[k.value] = prog.funcs[f"{mod.name}.{regname}[{k.value!r}]"]
-    return out
+    from ..core import registry_entries
+    return registry_entries(prog, modname, regname)
 
 
 def run(ctx):
